@@ -4,20 +4,22 @@ package gal
 import (
 	"fmt"
 	"strings"
+	"sync"
 )
 
 // interning: every byte string longer than a few bytes is defined once per cases file
 // (Definition sN := us len [words]) and referenced by name.
 var (
+	internMu   sync.Mutex
 	internIdx  = map[string]int{}
 	internDefs []string
 )
 
 // ResetIntern starts a new cases file.
-func ResetIntern() { internIdx = map[string]int{}; internDefs = nil }
+func ResetIntern() { internMu.Lock(); internIdx = map[string]int{}; internDefs = nil; internMu.Unlock() }
 
 // InternDefs returns the definitions of the strings interned since the last reset.
-func InternDefs() []string { return internDefs }
+func InternDefs() []string { internMu.Lock(); defer internMu.Unlock(); return internDefs }
 
 func packed(s string) string {
 	var b strings.Builder
@@ -57,6 +59,8 @@ func S(s string) string {
 	if len(s) <= 12 && plainASCII(s) {
 		return `"` + s + `"`
 	}
+	internMu.Lock()
+	defer internMu.Unlock()
 	if i, ok := internIdx[s]; ok {
 		return fmt.Sprintf("s%d", i)
 	}
